@@ -48,6 +48,13 @@ def spellings():
     return out
 
 
+def _encodable(ch, name):
+    try:
+        return len(ch.encode(name)) > 0 and ch.encode(name).decode(name) == ch
+    except Exception:       # noqa
+        return False
+
+
 def stateless(cn):
     """Is the canonical codec a per-character table on the probes (and BOM only at the start)?"""
     try:
@@ -105,8 +112,11 @@ def run(run, replay=None):
                     cases.append(c)
                     cid += 1
                     run.count((name, kind, probe), nontrivial=name != cn)
+            # a two-line text that ends, unterminated, in a non-ASCII character of this codec (if it has one)
+            extra = [ch for ch in 'éæÊかトきßяω中ł' if _encodable(ch, name)]
+            tail = 'line one\nz' + (extra[nsp % len(extra)] if extra else 'q')
             # a section written and read back under this spelling
-            calls = [('preamble', {'text': rng.choice(PROBES), 'line_endings': rng.choice([None, 'unix', 'dos'])}),
+            calls = [('preamble', {'text': tail, 'indent': rng.choice([2, 4]), 'line_endings': rng.choice([None, 'unix', 'dos'])}),
                      ('meta', {'metadata': {'k': 'v'}}), ('change', {}),
                      ('preamble', {'text': rng.choice(PROBES), 'encoding': name, 'indent': rng.choice([0, 2, 4])}),
                      ('file', {}), ('meta', {'metadata': {'k': 'v'}, 'encoding': name}),
